@@ -32,6 +32,7 @@ func init() {
 			{ID: "R05e", Floor: 2, Doc: "the index records for each section the writer position taken before its write, after the write succeeded (= R06a)", Run: ruleR06a},
 			{ID: "R05g", Floor: 4, Doc: "the deferred writer creates its file truncating and builds the writer from the caller's inputs (= R20b): in CARv1 mode the file is exactly the payload", Run: ruleR20b},
 			{ID: "R05f", Floor: 1, Doc: "a resumed session's index holds every section already in the file (= R12c)", Run: ruleR12c},
+			{ID: "R05h", Floor: 8, Doc: "sections are framed as uvarint(len) | cid | data, each part by its own checked write (= R01b)", Run: ruleR01b},
 		},
 	})
 }
@@ -497,13 +498,25 @@ func ruleR05c(c *Ctx, r *Report) {
 			continue
 		}
 		var v2 []Edge
-		if s.name == "initWithRoots" {
-			v2 = boolParamEdges(fn, fn.Params[1], true)
+		var boolParam *ssa.Parameter
+		for _, p := range fn.Params[1:] {
+			if bt, ok := p.Type().Underlying().(*types.Basic); ok && bt.Kind() == types.Bool {
+				boolParam = p
+			}
+		}
+		if s.name == "initWithRoots" && boolParam != nil {
+			v2 = boolParamEdges(fn, boolParam, true)
 			// and the caller passes !WriteAsCarV1
 			caller, err := c.Func(pkgBS, "", "OpenReadWriteFile")
 			if err == nil {
 				for _, ci := range callsToFunc(caller, pkgBS, "ReadWrite", "initWithRoots") {
-					base, neg := condNorm(canon(ci.Common().Args[1]))
+					idx := 0
+					for i, p := range fn.Params {
+						if p == boolParam {
+							idx = i
+						}
+					}
+					base, neg := condNorm(canon(ci.Common().Args[idx]))
 					if !neg || !loadsField(base, modV2, "Options", "WriteAsCarV1") {
 						v2 = nil
 					}
@@ -511,6 +524,39 @@ func ruleR05c(c *Ctx, r *Report) {
 			}
 		} else {
 			v2 = condEdges(fn, matchFieldCond(modV2, "Options", "WriteAsCarV1", false))
+			if len(v2) == 0 && boolParam != nil {
+				// the mode handed in as a parameter: every caller must pass WriteAsCarV1 (or its negation)
+				polarity := 0 // 1: param == WriteAsCarV1, 2: param == !WriteAsCarV1, -1: neither
+				idx := 0
+				for i, p := range fn.Params {
+					if p == boolParam {
+						idx = i
+					}
+				}
+				for _, g := range c.RepoFuncs() {
+					for _, ci := range callsToFunc(g, s.pkg, s.recv, s.name) {
+						base, neg := condNorm(canon(ci.Common().Args[idx]))
+						pol := -1
+						if loadsField(base, modV2, "Options", "WriteAsCarV1") {
+							pol = 1
+							if neg {
+								pol = 2
+							}
+						}
+						if polarity == 0 {
+							polarity = pol
+						} else if polarity != pol {
+							polarity = -1
+						}
+					}
+				}
+				switch polarity {
+				case 1:
+					v2 = boolParamEdges(fn, boolParam, false)
+				case 2:
+					v2 = boolParamEdges(fn, boolParam, true)
+				}
+			}
 		}
 		bad := ""
 		if len(v2) == 0 {
